@@ -316,3 +316,25 @@ def install_stats_contracts():
 
 def forget_shadows():
     _SHADOWS.clear()
+
+
+def run_repo_tests_with_contracts(test_paths=("tests/test_utils.py",), timeout=900):
+    """Run (part of) the repository's own suite with the contracts on; returns the report dict."""
+    import os
+    import sys
+    import json
+    import tempfile
+    import subprocess
+    repo = os.environ.get("VERIF_REPO", "/repo")
+    rep = tempfile.mktemp(suffix=".json")
+    env = dict(os.environ, VF_CONTRACT_REPORT=rep)
+    r = subprocess.run([sys.executable, "-m", "pytest", "-q", "-p", "no:cacheprovider", "-p", "vf.pytest_contracts", "-W", "ignore"]
+                       + list(test_paths), cwd=repo, env=env, stdout=subprocess.PIPE, stderr=subprocess.STDOUT, timeout=timeout)
+    try:
+        with open(rep) as f:
+            out = json.load(f)
+        os.remove(rep)
+    except Exception:
+        out = {"evals": {}, "records": [], "exitstatus": r.returncode, "error": r.stdout.decode(errors="replace")[-500:]}
+    out["pytest_tail"] = r.stdout.decode(errors="replace").strip().splitlines()[-1:] if r.stdout else []
+    return out
